@@ -41,8 +41,8 @@ def gen_cases(tier, seed):
         cases.append(dict(kind="noise_stats", seed=int(rng.integers(1 << 30)),
                           cost=3))
     for algo in ("ddpg", "td3", "td3_lap", "td7", "mrq", "pets"):
-        for r in range(k):
-            cases.append(dict(kind="loop", algo=algo,
+        for r in range(2 * k):
+            cases.append(dict(kind="loop", algo=algo, wrapped=bool(r % 2),
                               seed=int(rng.integers(1 << 20)),
                               cost={"mrq": 14, "pets": 12, "td7": 8}.get(algo, 4)))
     return cases
@@ -331,6 +331,11 @@ def run_loop(case):
                noise_clip=float(rng.choice([0.05, 0.1])),
                target_policy_noise=float(rng.choice([0.5, 1.0])),
                policy_delay=2, target_delay=5)
+    if case.get("wrapped"):
+        # the routine sees a wrapper with its own, different action space
+        olow = (rng.normal(size=2) * 3).round(2)
+        cfg["outer_box"] = [olow.tolist(),
+                            (olow + np.abs(rng.normal(size=2)) * 2 + 0.3).round(2).tolist()]
     run = make_run(algo, cfg)
     tr = run.trace
     patches = []
@@ -375,8 +380,9 @@ def run_loop(case):
     tol = ulp if algo == "pets" else 0.0
     n_pol = 0
     k = 0
+    act_kind = "outer_action" if case.get("wrapped") else "step"
     for e in tr.events:
-        if e["k"] == "step":
+        if e["k"] == act_kind:
             a = np.asarray(e["action"], np.float64)
             if a.shape != lo32.shape or np.any(a < lo32 - tol) or \
                     np.any(a > hi32 + tol) or not np.all(np.isfinite(a)):
